@@ -62,6 +62,41 @@ func frameCases(s *cases.Set, r *cq.RNG, thorough bool) {
 	if thorough {
 		n = 2500
 	}
+	fhdrEnc := func(h lorawan.FHDR, stale int, kind string) {
+		t := framefmt.FHDR(h, stale)
+		o := cq.Err
+		func() {
+			defer func() {
+				if rec := recover(); rec != nil {
+					o = cq.Panic
+				}
+			}()
+			if b, err := h.MarshalBinary(); err == nil {
+				o = cq.Ok(cq.Bytes(b))
+			}
+		}()
+		s.Add(cases.Case{Term: fmt.Sprintf("CFhdrEnc %s %s", t, o), Key: "fhdr-enc:" + t, Kind: kind, Nontrivial: true,
+			Replay: map[string]interface{}{"api": "FHDR.MarshalBinary", "value": t}})
+	}
+	for i := 0; i < n; i++ {
+		o := framefmt.ValidDataOpt(r)
+		o.FOptsBytes = r.Intn(16)
+		p := framefmt.DataFrame(r, o)
+		m := p.MACPayload.(*lorawan.MACPayload)
+		fhdrEnc(m.FHDR, 0, "fhdr-fresh")
+		// the same header after a decode (FOptsLen field set), then edited
+		if b, err := m.FHDR.MarshalBinary(); err == nil {
+			var h lorawan.FHDR
+			if h.UnmarshalBinary(true, b) == nil {
+				old := int(b[4] & 0x0f)
+				fhdrEnc(h, old, "fhdr-decoded")
+				h.FOpts = nil
+				fhdrEnc(h, old, "fhdr-decoded-fopts-stripped")
+				h.FOpts = []lorawan.Payload{&lorawan.DataPayload{Bytes: r.Bytes(1 + r.Intn(15))}}
+				fhdrEnc(h, old, "fhdr-decoded-fopts-replaced")
+			}
+		}
+	}
 	for i := 0; i < n; i++ {
 		for k := 0; k < 5; k++ {
 			p := framefmt.JoinFrame(r, k)
